@@ -17915,6 +17915,8 @@ fn duration_since_epoch() -> Option<Duration> {
 			.duration_since(std::time::SystemTime::UNIX_EPOCH)
 			.expect("SystemTime::now() should come after SystemTime::UNIX_EPOCH"),
 	);
+	#[cfg(ldk_verif)]
+	let now = Some(crate::util::verif::now());
 
 	now
 }
